@@ -33,6 +33,15 @@ class P:
     def geta(self):
         return self.a
 
+    # entities are INCOMPARABLE under the order operators (as NaN is, or sets that do not include one another): every
+    # order comparison between two of them is False -- which is what apply_op in Eql/Syntax.v says for non-integers.  So
+    # not_(x < y) holds for every pair while x >= y holds for none: a rewriting of negated comparisons into the opposite
+    # operator (seeded C01-H) is not an equivalence here.
+    def __lt__(self, other):
+        return False
+
+    __le__ = __gt__ = __ge__ = __lt__
+
     def __repr__(self):
         return f"P{self.oid}"
 
@@ -959,10 +968,10 @@ def gen_case(rng: Rng, profile: str = "c01", extras: bool = False) -> dict:
             return ["contains", ["attr", ["var", rng.choice(pvars)], "kids"], o]
         if r < 0.21:             # in_(int, literal list)
             return ["contains", ["lit", [rng.randint(0, 2) for _ in range(rng.randint(0, 3))]], int_operand(False)]
-        if r < 0.27 and pvars:   # object identity / equality
+        if r < 0.27 and pvars:   # object identity / equality; sometimes an ORDER comparison of two (incomparable) entities
             l = ["var", rng.choice(pvars)] if rng.chance(0.5) else ["attr", ["var", rng.choice(pvars)], "child"]
             rr = ["var", rng.choice(pvars)] if rng.chance(0.5) else ["attr", ["var", rng.choice(pvars)], "child"]
-            return ["cmp", rng.choice(["==", "!="]), l, rr]
+            return ["cmp", rng.choice(["==", "!=", "==", "!=", "<", "<=", ">", ">="]), l, rr]
         if r < 0.31 and tvars:
             return ["cmp", rng.choice(["==", "!="]), ["var", rng.choice(tvars)], ["var", rng.choice(tvars)]]
         if r < 0.36 and pvars:   # collections compared as sets
